@@ -5,7 +5,8 @@
 
     piece prev c      what one byte `c` of the name becomes (`prev` = the byte before it, none at the start of the name)
     escL prev name    the whole escaped name
-    mangleL m f       esc(module) ++ separator ++ esc(field): the C identifier of the import (module, field)
+    escModL m         the module part of an import's identifier (`Gen.Mangle.moduleLeadEscape`: a leading digit is escaped too)
+    mangleL m f       escModule(module) ++ separator ++ esc(field): the C identifier of the import (module, field)
     exportL name      esc(name): what follows `<module>_` in the symbol of an export
 
   `isAlnum` is C's `isalnum` in the "C" locale (w2c2 never calls setlocale) on `(unsigned char) c`.
@@ -39,7 +40,24 @@ def escL : Option UInt8 → List UInt8 → List Nat
   | _, [] => []
   | prev, c :: rest => piece prev c ++ escL (some c) rest
 
-def mangleL (m f : List UInt8) : List Nat := escL none m ++ separator ++ escL none f
+def leadHolds (c : UInt8) : LeadAtom → Bool
+  | .digit => 48 ≤ c.toNat && c.toNat ≤ 57            -- C's isdigit on (unsigned char) c
+
+/-- the first byte of a module name is escaped by the wrapper `wasmCWrite{File,String}EscapedModule` -/
+def leads (c : UInt8) : Bool := moduleLeadEscape.any (leadHolds c)
+
+/-- the module part of an import's identifier: a leading byte the wrapper escapes is written as escapeChar + %02X and the REST goes
+    through the escaping routine as a name of its own (no preceding byte); otherwise the whole name goes through the routine -/
+def escModL : List UInt8 → List Nat
+  | [] => []
+  | c :: rest => if leads c then escapeChar :: hexL c ++ escL none rest else escL none (c :: rest)
+
+def mangleL (m f : List UInt8) : List Nat := escModL m ++ separator ++ escL none f
+
+/-- the characters of a C identifier -/
+def isIdStart (n : Nat) : Bool := (65 ≤ n && n ≤ 90) || (97 ≤ n && n ≤ 122) || n == 95
+def isIdChar (n : Nat) : Bool := isIdStart n || (48 ≤ n && n ≤ 57)
+def IsIdentifier (s : List Nat) : Prop := ∃ h t, s = h :: t ∧ isIdStart h = true ∧ ∀ x ∈ t, isIdChar x = true
 
 def exportL (name : List UInt8) : List Nat := escL none name
 
